@@ -1599,8 +1599,6 @@ def fragment_reasons(d):
                         add("net_property")
                     if n.get("comments"):
                         add("comment")
-                    if n["kind"] != "scalar" and n.get("iidx", n["idx"]) != n["idx"]:
-                        add("identifier_index_differs")
     if not seen_design:
         add("no_design")
     return out
@@ -1625,7 +1623,8 @@ def to_adesign(d):
                     nets.append({"kind": "scalar", "name": nm(n["nm"]), "pins": pins})
                 else:
                     b = c["buses"][n["bus"]]
-                    nets.append({"kind": "bit", "bid": b["id"], "bname": b["orig"], "idx": n["idx"], "pins": pins})
+                    nets.append({"kind": "bit", "bid": b["id"], "bname": b["orig"], "idx": n["idx"],
+                                 "iidx": n.get("iidx", n["idx"]), "pins": pins})
             cells.append({
                 "name": nm(c["nm"]), "view": c["view"]["id"],
                 "ports": [{"name": nm(p["nm"]), "dir": DIRS[p["dir"]], "array": p["width"]} for p in c["ports"]],
